@@ -44,14 +44,23 @@ META = {
         "Decided per TraitList mutator: at most one notify per path, only "
         "after the underlying mutation, none on failing paths; `removed` read "
         "before and `added` validated/read after the mutation; silence guards "
-        "test exactly the delta operands; event factory purity; self-attribute "
-        "closure. NOT decided: index/slice normalisation arithmetic, "
-        "refinement of list results."),
+        "test exactly the delta operands; no validation evaluated lazily "
+        "inside the mutation; each override performs the built-in operation "
+        "it overrides with index/count arguments passed through; event "
+        "factory purity; self-attribute closure; copy protocol; the C items-"
+        "event retry loop re-reads object state. NOT decided: index/slice "
+        "normalisation arithmetic on values."),
     "C06": dict(level="other", trusted_base=_TB_PY, explanation=_PARTIAL +
-        "As C05 for TraitDict, plus purity of the dict event factory. Not "
-        "decided: the dict algebra of deltas on values."),
+        "As C05 for TraitDict, plus purity of the dict event factory, "
+        "membership typestate of validated keys (`added` keys known absent, "
+        "`changed` keys known present in the pre-state), the key-absent "
+        "precondition of setdefault's emulated store and element-wise deep "
+        "copy of keys and values. Not decided: the dict algebra of deltas on "
+        "values."),
     "C07": dict(level="other", trusted_base=_TB_PY, explanation=_PARTIAL +
-        "As C05 for TraitSet, plus self-attribute closure and agreement of the "
+        "As C05 for TraitSet, plus membership typestate of validated items "
+        "(`added` is filtered against the pre-state or is post-state minus a "
+        "pre-state snapshot), self-attribute closure and agreement of the "
         "copy protocol across the six container classes. Not decided: set "
         "algebra on values."),
     "C08": dict(level="other", trusted_base=_TB_PY, explanation=_PARTIAL +
@@ -78,8 +87,10 @@ META = {
         "decided: read/write agreement over histories."),
     "C12": dict(level="other", trusted_base=_TB_PY, explanation=_PARTIAL +
         "Decided: cache-key agreement chain decorator/metadata/invalidator; "
-        "pop-before-notify; observers installed before state in all three "
-        "lifecycles. Not decided: completeness of declared dependencies."),
+        "the metaclass rebuilds the dependency observer for every observed "
+        "property from the final trait alone; pop-before-notify; observers "
+        "installed before state in all three lifecycles. Not decided: "
+        "completeness of declared dependencies."),
     "C13": dict(level="other", trusted_base=_TB_C + _TB_PY, explanation=_PARTIAL +
         "Decided: lookup-order idiom agreement at the C lookup sites; TraitKind "
         "vs handler tables; effect analysis (constant/disallow/event never "
@@ -88,33 +99,45 @@ META = {
         "concrete name and hierarchy."),
     "C14": dict(level="other", trusted_base=_TB_C + _TB_PY, explanation=_PARTIAL +
         "Decided: lifecycle sibling agreement (has_traits_init, __setstate__, "
-        "clone_traits); state restored through trait_set; container copy "
-        "protocol agreement; __getstate__ table membership and __setstate__ "
-        "index bounds of CTrait. Not decided: value equality of copies."),
+        "clone_traits) including both halves of the legacy-listener set-up; "
+        "state restored through trait_set with delegate overrides replayed "
+        "last; container copy protocol agreement with element-wise deep copy; "
+        "item-by-item agreement of CTrait.__getstate__/__setstate__ (field, "
+        "function table, format; restored flag bits not masked); __getstate__ "
+        "table membership and __setstate__ index bounds. Not decided: value "
+        "equality of copies."),
     "C15": dict(level="other", trusted_base=_TB_PY + ["lark 1.3.1 grammar loader"],
         explanation=_PARTIAL +
         "Decided: the embedded parser tables vs the documented grammar as "
         "token languages up to a bound; FOLLOW-set proof that '*' is terminal; "
         ".lark vs embedded rules; rule names vs handler table; notify-flag data "
-        "flow; uniqueness precondition of ObserverGraph. Not decided: meaning "
+        "flow; uniqueness precondition of ObserverGraph; '+name' builds a "
+        "MetadataFilter whose test is `is not None`. Not decided: meaning "
         "per string."),
     "C16": dict(level="other", trusted_base=_TB_PY, explanation=_PARTIAL +
-        "Decided: listener re-registration polarity in every handle_*; remove "
-        "flag threaded to every (un)registration; remove path disposes. Not "
-        "decided: agreement with observe over histories."),
+        "Decided: listener re-registration polarity in every handle_*; every "
+        "unregistration precedes every registration within one event; remove "
+        "flag threaded to every (un)registration; remove path disposes; both "
+        "halves of the static-listener set-up run on every construction "
+        "path. Not decided: agreement with observe over histories."),
     "C18": dict(level="other", trusted_base=_TB_C, explanation=_PARTIAL +
         "Decided: dispatch-table index bounds; func_index table membership; "
         "GC-protocol exhaustiveness; local reference-ownership typestate "
-        "(leak / release of borrowed / use after release) on callback-failure "
-        "paths. Not decided: whole-program memory safety."),
+        "(leak / release of borrowed / use after release / borrowed value "
+        "used across a callback) on every path; struct-field replacement "
+        "discipline (acquire new, store, release old; never released twice; "
+        "never overwritten unreleased); retry loops re-read object state; "
+        "error discipline. Not decided: whole-program memory safety, "
+        "finalizer re-entrancy."),
     "C19": dict(level="other", trusted_base=_TB_C + _TB_PY, explanation=_PARTIAL +
         "Decided: validate-then-mutate in containers; compute-then-store in "
         "the C getters/setters; try/finally pairing of notification "
         "suppression; handler containment; undo-log completeness. Not "
         "decided: fault injection at every k-th callback (dynamic)."),
     "C20": dict(level="other", trusted_base=_TB_PY, explanation=_PARTIAL +
-        "Decided: lock window contains every propagating assignment; partner "
-        "lock test dominates it; add/remove registration pairing; weak partner "
+        "Decided: lock window contains every propagating assignment; the "
+        "dominating lock test asks about exactly the (partner, partner-side "
+        "name) pair written; add/remove registration pairing; weak partner "
         "reference. Not decided: convergence of values."),
 }
 for _k, _v in META.items():
